@@ -55,7 +55,7 @@ func (f *clientOnResponseProcessor) Process(ctx context.Context, rpcMessage mess
 				response := gettyRemotingClient.GetMessageFuture(msgID)
 				if response != nil {
 					response.Response = mergedResult.Msgs[i]
-					response.Done <- struct{}{}
+					response.Complete()
 					gettyRemotingClient.RemoveMessageFuture(msgID)
 				}
 			}
